@@ -89,11 +89,12 @@ theorem asciiBytes_render_head (d : LDecl) :
   exact ⟨_, rfl⟩
 
 /-- The common part of the single-byte / UTF-8 cases: which encoding is chosen. -/
-theorem encodingOf_declared (d : LDecl) (hok : d.ok = true) (hlen : d.render.length ≤ 1024) (tail : Bytes) :
+theorem encodingOf_declared (d : LDecl) (hok : d.ok = true) (tail : Bytes) :
     bomSniff (asciiBytes d.render ++ tail) = none ∧
     encodingOf (asciiBytes d.render ++ tail) = labelChoice d.encoding := by
-  have hx := xmlDeclaration_spelled d hok (asciiBytes d.render) tail
-    (spells_ascii _ (render_ascii d hok)) (by simpa [asciiBytes] using hlen)
+  have hx := xmlDeclaration_spelled d hok [] (asciiBytes d.render) tail (by simp [declBoms])
+    (spells_ascii _ (render_ascii d hok))
+  rw [List.nil_append] at hx
   obtain ⟨rest, hr⟩ := asciiBytes_render_head d
   rw [hr] at hx ⊢
   simp only [List.cons_append] at hx ⊢
@@ -102,24 +103,24 @@ theorem encodingOf_declared (d : LDecl) (hok : d.ok = true) (hlen : d.render.len
 /-- **Declared single-byte text** (`iso-8859-1`, `latin1`, `windows-1252`, `us-ascii`, … — every label
     `for_label` maps to windows-1252): the declaration in ASCII followed by ANY bytes decodes to the
     declaration followed by those bytes read through the windows-1252 table. -/
-theorem decodeBytes_latin (d : LDecl) (hok : d.ok = true) (hlen : d.render.length ≤ 1024) (L : Str)
+theorem decodeBytes_latin (d : LDecl) (hok : d.ok = true) (L : Str)
     (hL : d.encoding = some L) (hlabel : forLabel (normalise L) = some .windows1252) (body : Bytes) :
     decodeBytes (asciiBytes d.render ++ body) = some (d.render ++ body.map win1252) := by
-  obtain ⟨hb, he⟩ := encodingOf_declared d hok hlen body
+  obtain ⟨hb, he⟩ := encodingOf_declared d hok body
   unfold decodeBytes decodeSniffed
   rw [hb, he, hL]
   simp only [labelChoice, hlabel, Option.getD_some, decodeWith, List.map_append,
     map_win1252_ascii _ (fun c hc => (render_ascii d hok c hc).2)]
 
 /-- **Declared (or label-less, or unknown-label) UTF-8 text without byte order mark.** -/
-theorem decodeBytes_utf8_declared (d : LDecl) (hok : d.ok = true) (hlen : d.render.length ≤ 1024)
+theorem decodeBytes_utf8_declared (d : LDecl) (hok : d.ok = true)
     (hlabel : ∀ L, d.encoding = some L → (forLabel (normalise L)).getD .utf8 = .utf8) (body : Str) :
     decodeBytes (encodeUtf8 (d.render ++ body)) = some (d.render ++ body) := by
   have hasc : encodeUtf8 d.render = asciiBytes d.render :=
     encodeUtf8_ascii _ (fun c hc => (render_ascii d hok c hc).2)
   have hdec := decodeUtf8_encode (d.render ++ body)
   rw [encodeUtf8_append, hasc] at hdec ⊢
-  obtain ⟨hb, he⟩ := encodingOf_declared d hok hlen (encodeUtf8 body)
+  obtain ⟨hb, he⟩ := encodingOf_declared d hok (encodeUtf8 body)
   unfold decodeBytes decodeSniffed
   rw [hb, he]
   cases hL : d.encoding with
